@@ -105,11 +105,52 @@ theorem fromNum_isPanic (x : Num) (T : GoTy) : (fromNum x T).isPanic = false := 
   | _ => rfl
 
 
+theorem mem_inOrder {α} {order names : List String} {rs : List (Res α)} {r : Res α}
+    (h : r ∈ inOrder order names rs) : r ∈ rs := by
+  unfold inOrder at h
+  obtain ⟨k, _, hk⟩ := List.mem_filterMap.mp h
+  clear h
+  induction names generalizing rs with
+  | nil => simp [lookupKey] at hk
+  | cons n ns ih =>
+    cases rs with
+    | nil => simp [lookupKey] at hk
+    | cons x xs =>
+      simp only [lookupKey] at hk
+      split at hk
+      · cases hk; simp
+      · exact List.mem_cons_of_mem _ (ih hk)
+
+theorem firstFailure_isPanic {α β} : ∀ (rs : List (Res α)) (f : Res β), anyPanic rs = false →
+    firstFailure rs = some f → f.isPanic = false
+  | [], _, _, h => by simp [firstFailure] at h
+  | r :: rs, f, hp, h => by
+    rw [anyPanic_cons, Bool.or_eq_false_iff] at hp
+    simp only [firstFailure] at h
+    cases r with
+    | ok a => simp only [failureOf] at h; exact firstFailure_isPanic rs f hp.2 h
+    | err c => simp only [failureOf, Option.some.injEq] at h; subst h; rfl
+    | panic w => simp [Res.isPanic] at hp
+    | unmodelled => simp only [failureOf, Option.some.injEq] at h; subst h; rfl
+
+theorem combSched_isPanic {α} (order names : List String) (rs : List (Res α)) (h : anyPanic rs = false) :
+    (combSched order names rs).isPanic = false := by
+  unfold combSched
+  split; · rfl
+  have h2 : anyPanic (inOrder order names rs) = false := by
+    rw [anyPanic_false_iff] at h ⊢
+    exact fun r hr => h r (mem_inOrder hr)
+  split
+  · rename_i f hf; exact firstFailure_isPanic _ f h2 hf
+  · split
+    · rename_i f hf; exact firstFailure_isPanic _ f h hf
+    · rfl
+
 open Payload in
 mutual
-theorem fromCtyP_noPanic : ∀ (p : Payload) (ty : Ty) (T : GoTy), containsMarked p = false →
-    (fromCtyP [] ty p T).isPanic = false
-  | .null, ty, T, _ => by
+theorem fromCtyP_noPanic : ∀ (p : Payload) (S : Sched) (ty : Ty) (T : GoTy), containsMarked p = false →
+    (fromCtyP S [] ty p T).isPanic = false
+  | .null, S, ty, T, _ => by
     unfold fromCtyP
     split; · rfl
     simp only []
@@ -119,72 +160,70 @@ theorem fromCtyP_noPanic : ∀ (p : Payload) (ty : Ty) (T : GoTy), containsMarke
       · split <;> rfl
       · split <;> rfl
       · rfl
-  | .unk _, ty, T, _ => by
+  | .unk _, S, ty, T, _ => by
     unfold fromCtyP; split <;> rfl
-  | .b v, ty, T, _ => by
+  | .b v, S, ty, T, _ => by
     unfold fromCtyP; split; · rfl
     simp only []
     split
     · split <;> rfl
     · rfl
-  | .n x, ty, T, _ => by
+  | .n x, S, ty, T, _ => by
     unfold fromCtyP; split; · rfl
     simp only []
     split
     · simp [mapRes_isPanic, fromNum_isPanic]
     · rfl
-  | .s v, ty, T, _ => by
+  | .s v, S, ty, T, _ => by
     unfold fromCtyP; split; · rfl
     simp only []
     split
     · split <;> rfl
     · rfl
-  | .caps, ty, T, _ => by
+  | .caps, S, ty, T, _ => by
     unfold fromCtyP; split <;> rfl
-  | .bad _, ty, T, _ => by
+  | .bad _, S, ty, T, _ => by
     unfold fromCtyP; split <;> rfl
-  | .marked _ _, ty, T, h => by simp [containsMarked] at h
-  | .seq cs, ty, T, h => by
+  | .marked _ _, S, ty, T, h => by simp [containsMarked] at h
+  | .seq cs, S, ty, T, h => by
     simp only [containsMarked] at h
     unfold fromCtyP; split; · rfl
     simp only []
     split
     · split
-      · simp [mapRes_isPanic, seqAll_isPanic _ (fromCtyL_noPanic cs _ _ h)]
+      · simp [mapRes_isPanic, seqAll_isPanic _ (fromCtyL_noPanic cs _ _ _ h)]
       · simp only [List.isEmpty_nil, Bool.not_true, Bool.false_eq_true, if_false]
         split
         · rfl
-        · simp [mapRes_isPanic, seqAll_isPanic _ (fromCtyL_noPanic cs _ _ h)]
+        · simp [mapRes_isPanic, seqAll_isPanic _ (fromCtyL_noPanic cs _ _ _ h)]
       · rfl
     · split
       · split
         · rfl
-        · simp [mapRes_isPanic, seqAll_isPanic _ (fromCtyZ_noPanic cs _ _ h)]
+        · simp [mapRes_isPanic, seqAll_isPanic _ (fromCtyZ_noPanic cs _ _ _ h)]
       · rfl
       · rfl
       · rfl
     · rfl
-  | .smap ks cs, ty, T, h => by
+  | .smap ks cs, S, ty, T, h => by
     simp only [containsMarked] at h
     unfold fromCtyP; split; · rfl
     simp only []
     split
     · split
-      · simp [mapRes_isPanic, seqAll_isPanic _ (fromCtyL_noPanic cs _ _ h)]
+      · simp [mapRes_isPanic, seqAll_isPanic _ (fromCtyL_noPanic cs _ _ _ h)]
       · rfl
     · split
       · rfl
       · split
         · split
           · rfl
-          · split
-            · rfl
-            · simp [mapRes_isPanic, combAll_isPanic _ (fromCtyA_noPanic cs _ _ _ _ h)]
+          · simp [mapRes_isPanic, combSched_isPanic _ _ _ (fromCtyA_noPanic cs _ _ _ _ _ h)]
         · split <;> rfl
         · split <;> rfl
         · rfl
     · rfl
-  | .sset _ cs, ty, T, h => by
+  | .sset _ cs, S, ty, T, h => by
     simp only [containsMarked] at h
     unfold fromCtyP; split; · rfl
     simp only []
@@ -193,43 +232,43 @@ theorem fromCtyP_noPanic : ∀ (p : Payload) (ty : Ty) (T : GoTy), containsMarke
       · simp only [List.isEmpty_nil, Bool.not_true, Bool.false_eq_true, if_false]
         split
         · rfl
-        · simp [mapRes_isPanic, seqAll_isPanic _ (setOrder_noPanic _ cs _ (fromCtyL_noPanic cs _ _ h))]
+        · simp [mapRes_isPanic, seqAll_isPanic _ (setOrder_noPanic _ cs _ (fromCtyL_noPanic cs _ _ _ h))]
       · simp only [List.isEmpty_nil, Bool.not_true, Bool.false_eq_true, if_false]
         split
         · rfl
         · split
           · rfl
-          · simp [mapRes_isPanic, seqAll_isPanic _ (setOrder_noPanic _ cs _ (fromCtyL_noPanic cs _ _ h))]
+          · simp [mapRes_isPanic, seqAll_isPanic _ (setOrder_noPanic _ cs _ (fromCtyL_noPanic cs _ _ _ h))]
       · rfl
     · rfl
-theorem fromCtyL_noPanic : ∀ (cs : List Payload) (ety : Ty) (E : GoTy), containsMarkedL cs = false →
-    anyPanic (fromCtyL ety cs E) = false
-  | [], _, _, _ => rfl
-  | c :: cs, ety, E, h => by
+theorem fromCtyL_noPanic : ∀ (cs : List Payload) (S : Sched) (ety : Ty) (E : GoTy), containsMarkedL cs = false →
+    anyPanic (fromCtyL S ety cs E) = false
+  | [], _, _, _, _ => rfl
+  | c :: cs, S, ety, E, h => by
     simp only [containsMarkedL, Bool.or_eq_false_iff] at h
-    simp only [fromCtyL, anyPanic_cons, fromCtyP_noPanic c ety E h.1, fromCtyL_noPanic cs ety E h.2,
+    simp only [fromCtyL, anyPanic_cons, fromCtyP_noPanic c S ety E h.1, fromCtyL_noPanic cs S ety E h.2,
       Bool.or_false]
-theorem fromCtyZ_noPanic : ∀ (cs : List Payload) (etys : List Ty) (tys : List GoTy),
-    containsMarkedL cs = false → anyPanic (fromCtyZ [] etys cs tys) = false
-  | [], _, _, _ => by simp [fromCtyZ, anyPanic]
-  | c :: cs, [], _, _ => by simp [fromCtyZ, anyPanic]
-  | c :: cs, _ :: _, [], _ => by simp [fromCtyZ, anyPanic]
-  | c :: cs, ety :: etys, T :: tys, h => by
+theorem fromCtyZ_noPanic : ∀ (cs : List Payload) (S : Sched) (etys : List Ty) (tys : List GoTy),
+    containsMarkedL cs = false → anyPanic (fromCtyZ S [] etys cs tys) = false
+  | [], _, _, _, _ => by simp [fromCtyZ, anyPanic]
+  | c :: cs, _, [], _, _ => by simp [fromCtyZ, anyPanic]
+  | c :: cs, _, _ :: _, [], _ => by simp [fromCtyZ, anyPanic]
+  | c :: cs, S, ety :: etys, T :: tys, h => by
     simp only [containsMarkedL, Bool.or_eq_false_iff] at h
-    simp only [fromCtyZ, anyPanic_cons, fromCtyP_noPanic c ety T h.1, fromCtyZ_noPanic cs etys tys h.2,
+    simp only [fromCtyZ, anyPanic_cons, fromCtyP_noPanic c S ety T h.1, fromCtyZ_noPanic cs S etys tys h.2,
       Bool.or_false]
-theorem fromCtyA_noPanic : ∀ (cs : List Payload) (names : List String) (atys : List Ty)
+theorem fromCtyA_noPanic : ∀ (cs : List Payload) (S : Sched) (names : List String) (atys : List Ty)
     (tags : List String) (tys : List GoTy),
-    containsMarkedL cs = false → anyPanic (fromCtyA [] names atys cs tags tys) = false
-  | [], _, _, _, _, _ => by simp [fromCtyA, anyPanic]
-  | c :: cs, [], _, _, _, _ => by simp [fromCtyA, anyPanic]
-  | c :: cs, _ :: _, [], _, _, _ => by simp [fromCtyA, anyPanic]
-  | c :: cs, k :: names, aty :: atys, tags, tys, h => by
+    containsMarkedL cs = false → anyPanic (fromCtyA S [] names atys cs tags tys) = false
+  | [], _, _, _, _, _, _ => by simp [fromCtyA, anyPanic]
+  | c :: cs, _, [], _, _, _, _ => by simp [fromCtyA, anyPanic]
+  | c :: cs, _, _ :: _, [], _, _, _ => by simp [fromCtyA, anyPanic]
+  | c :: cs, S, k :: names, aty :: atys, tags, tys, h => by
     simp only [containsMarkedL, Bool.or_eq_false_iff] at h
-    simp only [fromCtyA, anyPanic_cons, fromCtyA_noPanic cs names atys tags tys h.2, Bool.or_false]
+    simp only [fromCtyA, anyPanic_cons, fromCtyA_noPanic cs S names atys tags tys h.2, Bool.or_false]
     split
     · rfl
-    · exact fromCtyP_noPanic c aty _ h.1
+    · exact fromCtyP_noPanic c S aty _ h.1
 end
 
 theorem base_not_ptr : ∀ (T : GoTy) (e : GoTy), T.base ≠ .ptr e
@@ -238,25 +277,25 @@ theorem base_not_ptr : ∀ (T : GoTy) (e : GoTy), T.base ≠ .ptr e
   | .struct _ _, _ | .bigInt, _ | .bigFloat, _ | .cval, _ => by simp [GoTy.base]
 
 /-- unknown values are refused by every target that is not a `cty.Value` (marked or not) -/
-theorem fromCtyP_unknown (ms : List String) (ty : Ty) (r : Rfn) (T : GoTy) (h : T.base.isCval = false) :
-    fromCtyP ms ty (.unk r) T = .err "value must be known" := by
+theorem fromCtyP_unknown (S : Sched) (ms : List String) (ty : Ty) (r : Rfn) (T : GoTy) (h : T.base.isCval = false) :
+    fromCtyP S ms ty (.unk r) T = .err "value must be known" := by
   unfold fromCtyP; simp [h]
 
-theorem fromCtyP_marked_unknown (ms m : List String) (ty : Ty) (r : Rfn) (T : GoTy) (h : T.base.isCval = false) :
-    fromCtyP ms ty (.marked m (.unk r)) T = .err "value must be known" := by
-  unfold fromCtyP; simp only [h, Bool.false_eq_true, if_false]; exact fromCtyP_unknown _ ty r T h
+theorem fromCtyP_marked_unknown (S : Sched) (ms m : List String) (ty : Ty) (r : Rfn) (T : GoTy) (h : T.base.isCval = false) :
+    fromCtyP S ms ty (.marked m (.unk r)) T = .err "value must be known" := by
+  unfold fromCtyP; simp only [h, Bool.false_eq_true, if_false]; exact fromCtyP_unknown S _ ty r T h
 
 /-- null is refused by a target that is neither a pointer, a slice, a map nor a `cty.Value` -/
-theorem fromCtyP_null_nonnilable (ty : Ty) (T : GoTy) (h1 : T.nilableKind = false) (h2 : T.isCval = false) :
-    ∃ c, fromCtyP [] ty .null T = .err c := by
+theorem fromCtyP_null_nonnilable (S : Sched) (ty : Ty) (T : GoTy) (h1 : T.nilableKind = false) (h2 : T.isCval = false) :
+    ∃ c, fromCtyP S [] ty .null T = .err c := by
   have hb : T.base = T := by cases T <;> simp_all [GoTy.base, GoTy.nilableKind]
   have hd : T.depth = 0 := by cases T <;> simp_all [GoTy.depth, GoTy.nilableKind]
   unfold fromCtyP
   simp only [hb, h2, Bool.false_eq_true, if_false, hd]
   cases ty <;> cases T <;> simp_all [nullViaPtr, GoTy.nilableKind]
 
-theorem fromCtyP_shape (ty : Ty) (p : Payload) (T : GoTy) (hk : kindOK ty p = true)
-    (hs : shapeOK ty T.base = false) : ∃ c, fromCtyP [] ty p T = .err c := by
+theorem fromCtyP_shape (S : Sched) (ty : Ty) (p : Payload) (T : GoTy) (hk : kindOK ty p = true)
+    (hs : shapeOK ty T.base = false) : ∃ c, fromCtyP S [] ty p T = .err c := by
   have hc : T.base.isCval = false := by
     cases hb : T.base <;> simp_all [GoTy.isCval, shapeOK]
   unfold fromCtyP
